@@ -19,7 +19,7 @@ from .scenarios import BaseScenario
 from .snapshot import ustr
 from .world import World
 
-EXITS = ["abort", "normal", "close", "double_close", "helper_r", "helper_rplus_from_r", "helper_r_on_closed", "helper_abort_on_closed", "helper_abort_from_r"]
+EXITS = ["abort", "normal", "close", "double_close", "helper_r", "helper_rplus_from_r", "helper_r_on_closed", "helper_abort_on_closed", "helper_abort_from_r", "save_as"]
 OP_KINDS = {"mk_group": 5, "mk_object": 9, "add_data": 10, "add_comment": 2, "add_file": 1, "set_values": 4, "rename": 3, "set_flag": 2,
             "set_meta": 3, "move": 3, "copy": 4, "rm_ws": 4, "pg_add": 3, "pg_new": 1, "gc": 3, "observe": 2, "lookup": 1, "type_edit": 1}
 SKIP_GETTERS = {"workspace", "entity_type", "parent", "children", "property_groups", "attribute_map", "concatenator", "comments",
@@ -35,11 +35,11 @@ class LifecycleScenario(BaseScenario):
     level = "fault_enumeration"
 
     def __init__(self):
-        self.expected_probes = ["abort_at_0", "abort_mid", "abort_at_end", "exit_normal", "exit_close", "exit_double_close", "exit_helper_abort", "exit_helper_r",
+        self.expected_probes = ["abort_at_0", "abort_mid", "abort_at_end", "exit_normal", "exit_close", "exit_double_close", "exit_helper_abort", "exit_helper_r", "exit_save_as",
                                 "stale_getter_closed_error", "stale_getter_value", "stale_setter_refused", "reopen_same_object"]
         self.rule = ("one evaluation = one (history, crash point, exit kind) triple. For each seeded history of n <= 12 world-machine operations inside "
                      "`with Workspace(...)`, the block is aborted by an exception after o_k for EVERY k in 0..n (exhaustive over crash points of that history), "
-                     "and additionally left normally, closed explicitly, closed twice and closed by fetch_active_workspace re-opening it in another mode. "
+                     "and additionally left normally, closed explicitly, closed twice, closed by fetch_active_workspace re-opening it in another mode, and moved to a copy with save_as. "
                      "distinct = distinct (abstract trace of the prefix, exit kind); non-trivial = prefix with >= 2 successful mutations.")
         self.assumptions = ["process kills, power loss and I/O failures inside an operation are out of scope by the property's own text",
                             "h5py/HDF5/numpy and sim/rawgeoh5.py are trusted"]
@@ -180,6 +180,12 @@ class LifecycleScenario(BaseScenario):
                                 if ro.geoh5.mode != "r":
                                     raise Violation("C11", "helper_mode", f"fetch_active_workspace(closed ws, 'r') opened it in mode {ro.geoh5.mode!r}", {})
                             sim.probe("exit_helper_on_closed")
+                        elif exit_kind == "save_as":
+                            # the workspace moves to a copy of its file: it is closed (flushed), copied and re-opened on the copy
+                            world.saved_from = handle.path
+                            handle.path = sim.path("saved_as.geoh5")
+                            ws.save_as(handle.path)
+                            sim.probe("exit_save_as")
                         else:
                             sim.probe("exit_normal")
                 except SimAbort:
@@ -239,6 +245,12 @@ class LifecycleScenario(BaseScenario):
         sim.oracle("completed_ops_in_file")
         if diffs:
             raise Violation("C11", "completed_op_missing", diffs[0], {"field": _field(diffs[0])})
+        if getattr(world, "saved_from", None):
+            # save_as: the file the workspace left behind holds the same completed operations as the copy it moved to
+            left = {k: compare.normalise_raw(v) for k, v in rawgeoh5.decode_tree(rawgeoh5.read(world.saved_from)).items()}
+            diffs = compare.diff_trees(model.recs, left, "MODEL", "RAW", fields=("kind", "type_uid", "parent", "name", "flags", "values", "metadata", "pgs", "children", "attrs", "arrays"))
+            if diffs:
+                raise Violation("C11", "completed_op_missing", "file left behind by save_as: " + diffs[0], {"field": _field(diffs[0]), "view": "LEFT"})
         try:
             fresh = Workspace(handle.path, mode="r")
         except Exception as err:  # pylint: disable=broad-except
